@@ -38,6 +38,8 @@ def actisense_composition(chk, program, lengths, rule):
         toks = it.tokens(res).items
         shape = [t.pieces[0][0] if len(t.pieces) == 1 else 'mixed' for t in toks]
         # three space-separated tokens of hex digits (a token may be several formatted pieces written side by side: its value is what the reader parses below)
+        if any(p[0] == 'opaque' for t in toks for p in t.pieces):
+            chk.unknown(rule, f"actisense::tokens@L={L}", 'a token of the line was not followed by the interpreter', ENC, 0); return
         hexish = lambda t: all(p[0] in ('hexint', 'hexbytes') or (p[0] == 'lit' and all(ch in '0123456789ABCDEFabcdef' for ch in p[1])) for p in t.pieces)
         chk.check(len(toks) == 3 and all(hexish(t) for t in toks), rule, f"actisense::tokens@L={L}", file=ENC, line=program.fn('encoder', 'NMEA2000Encoder.encode_actisense').lineno,
                   func='encode_actisense', expected=['header hex', 'PGN hex', 'payload hex'], found=shape)
@@ -198,7 +200,7 @@ def _reader(chk, fmt, n, r, rev):
     if a is None:
         chk.violation('WF-LAYOUT', f"{fmt}::accepted@n={n}", file=DEC, line=0, expected='the reader accepts the writer\'s packet and reaches _decode', found=r.warnings or 'returned early')
         return
-    chk.check(W.int_matches(r.header_arg, W.ID_BITS), 'WF-LAYOUT', f"{fmt}::reader-identifier@n={n}", file=DEC, line=0,
+    W.judge_int(chk, r.header_arg, W.ID_BITS, 'WF-LAYOUT', f"{fmt}::reader-identifier@n={n}", file=DEC, line=0,
               expected='_extract_header receives id[0:29] bit for bit', found=repr(r.header_arg))
     data = a[5] if len(a) > 5 else None
     chk.check(isinstance(data, A.ABytes) and data.items == rev, 'WF-LAYOUT', f"{fmt}::reader-data@n={n}", file=DEC, line=0,
